@@ -111,6 +111,8 @@ def sort_samples(n: int, rng: random.Random, count: int, whole: bool) -> List[Li
     else:
       s = rng.sample(range(1, n + 1), min(size, n))
     samples.append(s)
+  for k in range(1, n + 1):          # a list holding the same value twice
+    samples.append([k, k])
   if whole:
     s = list(range(1, n + 1))
     rng.shuffle(s)
